@@ -248,7 +248,7 @@ class Metric:
 
         array, start, end = self.get_array_between(start, end)
         if not expand and len(notes) < sum(array):
-            notes += [Silence(1)] * (sum(array) - len(notes))
+            notes = list(notes) + [Silence(1)] * (sum(array) - len(notes))
 
         beat_durations, first_has_note = self.get_beat_durations(array)
         result = self._apply_durations_to_melody(notes, beat_durations, first_has_note=first_has_note, expand=expand)
